@@ -22,7 +22,7 @@ fn c09_angular_total() {
 // Postconditions use comparisons against constants only: every extra symbolic f64 multiplication or
 // division in a postcondition costs CBMC minutes (measured), so the "to rounding" clauses are bracketed.
 
-//@h {"id":"C19.K.angular.dms_to_dd","props":["C19"],"tier":"quick","kind":"complete","timeout":1800,"text":"dms_to_dd: requires |d|<1000, m<60, 0<=s<60; ensures result has the sign of d (positive for d=0), lies in [|d|, |d|+1], is >= m/60 - 1e-12 above |d| and < (m+1)/60 + 1e-12 -- includes the zero-degree clause"}
+//@h {"id":"C19.K.angular.dms_to_dd","props":["C19"],"tier":"quick","kind":"complete","timeout":600,"text":"dms_to_dd: requires |d|<1000, m<60, 0<=s<60; ensures result has the sign of d (positive for d=0), lies in [|d|, |d|+1], is >= m/60 - 1e-12 above |d| and < (m+1)/60 + 1e-12 -- includes the zero-degree clause"}
 #[kani::proof]
 fn c19_angular_dms_to_dd() {
     let (d, m, s): (i32, u16, f64) = (kani::any(), kani::any(), kani::any());
@@ -41,7 +41,7 @@ fn c19_angular_dms_to_dd() {
     kani::cover!(d < 0, "negative degrees reachable");
 }
 
-//@h {"id":"C19.K.angular.dm_to_dd","props":["C19"],"tier":"quick","kind":"complete","timeout":1800,"text":"dm_to_dd: requires |d|<1000, 0<=m<60; ensures sign of d (positive for d=0), value in [|d|,|d|+1], and for whole minutes k<=m<k+1 the value is within [|d|+k/60, |d|+(k+1)/60]"}
+//@h {"id":"C19.K.angular.dm_to_dd","props":["C19"],"tier":"quick","kind":"complete","timeout":600,"text":"dm_to_dd: requires |d|<1000, 0<=m<60; ensures sign of d (positive for d=0), value in [|d|,|d|+1], and for whole minutes k<=m<k+1 the value is within [|d|+k/60, |d|+(k+1)/60]"}
 #[kani::proof]
 fn c19_angular_dm_to_dd() {
     let (d, m): (i32, f64) = (kani::any(), kani::any());
@@ -58,7 +58,7 @@ fn c19_angular_dm_to_dd() {
     kani::cover!(d == 0 && m > 30.0, "zero degrees reachable");
 }
 
-//@h {"id":"C19.K.angular.dd_to_iso_dm","props":["C19"],"tier":"quick","kind":"complete","timeout":1800,"text":"dd_to_iso_dm on [-720,720]: DDDMM.mmm layout: |r| in [100*floor|x|, 100*floor|x| + 60] (60 only by rounding), sign preserved incl. |x|<1 and -0.0"}
+//@h {"id":"C19.K.angular.dd_to_iso_dm","props":["C19"],"tier":"quick","kind":"complete","timeout":600,"text":"dd_to_iso_dm on [-720,720]: DDDMM.mmm layout: |r| in [100*floor|x|, 100*floor|x| + 60] (60 only by rounding), sign preserved incl. |x|<1 and -0.0"}
 #[kani::proof]
 fn c19_angular_dd_to_iso_dm() {
     let dd: f64 = kani::any();
@@ -74,7 +74,7 @@ fn c19_angular_dd_to_iso_dm() {
     }
 }
 
-//@h {"id":"C19.K.angular.dd_to_iso_dms","props":["C19"],"tier":"quick","kind":"complete","timeout":1800,"text":"dd_to_iso_dms on [-720,720]: DDDMMSS.sss layout: |r| in [10000*floor|x|, 10000*floor|x| + 6000], sign preserved"}
+//@h {"id":"C19.K.angular.dd_to_iso_dms","props":["C19"],"tier":"quick","kind":"complete","timeout":600,"text":"dd_to_iso_dms on [-720,720]: DDDMMSS.sss layout: |r| in [10000*floor|x|, 10000*floor|x| + 6000], sign preserved"}
 #[kani::proof]
 fn c19_angular_dd_to_iso_dms() {
     let dd: f64 = kani::any();
@@ -90,7 +90,7 @@ fn c19_angular_dd_to_iso_dms() {
     }
 }
 
-//@h {"id":"C19.K.angular.iso_dm_to_dd","props":["C19"],"tier":"quick","kind":"complete","timeout":1800,"text":"iso_dm_to_dd for well-formed DDDMM.mmm (|x|<=72000, minutes field < 60): |r| in [D, D+1] with D the hundreds, half-degree split at 30 minutes, sign preserved"}
+//@h {"id":"C19.K.angular.iso_dm_to_dd","props":["C19"],"tier":"quick","kind":"complete","timeout":600,"text":"iso_dm_to_dd for well-formed DDDMM.mmm (|x|<=72000, minutes field < 60): |r| in [D, D+1] with D the hundreds, half-degree split at 30 minutes, sign preserved"}
 #[kani::proof]
 fn c19_angular_iso_dm_to_dd() {
     let x: f64 = kani::any();
@@ -109,7 +109,7 @@ fn c19_angular_iso_dm_to_dd() {
     }
 }
 
-//@h {"id":"C19.K.angular.iso_dms_to_dd","props":["C19"],"tier":"quick","kind":"complete","timeout":1800,"text":"iso_dms_to_dd for well-formed DDDMMSS.sss: |r| in [D, D+1] with D the ten-thousands, half-degree split at 3000, sign preserved"}
+//@h {"id":"C19.K.angular.iso_dms_to_dd","props":["C19"],"tier":"quick","kind":"complete","timeout":600,"text":"iso_dms_to_dd for well-formed DDDMMSS.sss: |r| in [D, D+1] with D the ten-thousands, half-degree split at 3000, sign preserved"}
 #[kani::proof]
 fn c19_angular_iso_dms_to_dd() {
     let x: f64 = kani::any();
